@@ -638,6 +638,13 @@ func (ce *cenv) call(e *CExpr) Term {
 				return boolT(fmt.Sprintf("(%s %s)", fc.sliceNilFn(args[0].Sort), args[0].S))
 			}
 			return boolT(fmt.Sprintf("(= %s 0)", args[0].S))
+		case "allocated":
+			// allocated(p): the reference p denotes storage that exists in this state (it is not one a later
+			// allocation will return). True of every pointer a program can hold; stated in invariants over
+			// containers so that a freshly allocated object is known to differ from everything stored before.
+			evalArgs()
+			cur := fc.get(ce.st, allocKey, SInt, nil)
+			return boolT(fmt.Sprintf("(<= %s %s)", args[0].S, cur.S))
 		case "as":
 			// as(x, "T"): the value of interface x viewed as concrete type T (x.(T) without the check)
 			x := ce.expr(e.Args[1])
